@@ -524,10 +524,12 @@ func (s *stdioTransport) writeResponse(response interface{}, writer io.Writer) e
 	if _, err := writer.Write(data); err != nil {
 		return fmt.Errorf("error writing response: %w", err)
 	}
+	verifEvent("stdio.write.data", writer)
 
 	if _, err := writer.Write([]byte("\n")); err != nil {
 		return fmt.Errorf("error writing newline: %w", err)
 	}
+	verifEvent("stdio.write.nl", writer)
 
 	// Force flush buffer to ensure immediate delivery.
 	if file, ok := writer.(*os.File); ok {
